@@ -1,31 +1,50 @@
 (* C01 — property theorems only.  Each is closed by [exact <lemma>] and followed by
-   Print Assumptions.  Full statements that are not (yet) proved at full strength are kept
-   visible as [Definition ..._statement : Prop]; see the comments next to them. *)
-From V Require Import Common.NumFacts C01.Model C01.Proofs.
+   Print Assumptions; non-vacuity Examples at the end. *)
+From V Require Import Common.NumFacts C01.Model C01.Proofs C01.ProofsMulti C01.ProofsMix C01.ProofsOps
+  C01.ProofsTotal C01.ProofsSplit.
 
 (* ===== mixing: value =====
-   Full statement: whatever the receiver (single- or multi-phase), the inlets (any phases,
-   single/multi, the receiver itself any number of times, other packages in another order),
-   energy balance on or off and however often the temperature solver fails, a mix that
-   returns leaves in the receiver, for every chemical, the sum of the inlets' totals. *)
-Definition C01_mix_value_statement : Prop :=
-  forall st r ins eb hf r', wf_store st -> mix st r ins eb hf = Ok r' ->
+   Whatever the receiver (single- or multi-phase), the inlets (any phases, single/multi, the
+   receiver itself any number of times, other packages listing the chemicals in another
+   order), energy balance on or off (one non-empty inlet: copy_like) and however often the
+   temperature solver fails (fallback to multi-phase), a mix that returns leaves in the
+   receiver, for every chemical, the sum of the inlets' totals. *)
+Theorem C01_mix_value : forall st r ins eb hf r',
+  wf_store st -> mix st r ins eb hf = Ok r' ->
   forall c, tot r' c == qsum (map (tot_at st c) ins).
+Proof. exact mix_value_thm. Qed.
+Print Assumptions C01_mix_value.
 
-(* proved part: every single-phase receiver, material path (energy_balance=False): 0, 1 or more
-   inlets, any inlet kind/phase/package, receiver among the inlets any number of times.
-   Missing for the full statement: the analogous induction for MaterialIndexer.mix_from
-   (multi-phase receivers), copy_like (one inlet with energy balance) and the fallback path;
-   those are covered by the correspondence check and the direct oracle only. *)
-Theorem C01_mix_value_partial : forall st r ins hf c0 r',
-  wf_store st -> gets st r = Ok (SS c0) -> mix st r ins false hf = Ok r' ->
-  spkg r' = cpkg c0 /\ forall c, tot r' c == qsum (map (tot_at st c) ins).
-Proof. exact mix_value_single_lemma. Qed.
-Print Assumptions C01_mix_value_partial.
+(* the receiver keeps its package and stays well formed; nothing but the receiver changes *)
+Theorem C01_mix_result : forall st r ins eb hf rs r',
+  wf_store st -> nth_error st r = Some rs -> mix st r ins eb hf = Ok r' ->
+  spkg r' = spkg rs /\ wf_stream r'.
+Proof. exact mix_result_thm. Qed.
+Print Assumptions C01_mix_result.
+Theorem C01_mix_frame : forall st r ins eb hf st', step st (OMix r ins eb hf) = Ok st' ->
+  length st' = length st /\ forall k, k <> r -> nth_error st' k = nth_error st k.
+Proof. exact mix_frame_thm. Qed.
+Print Assumptions C01_mix_frame.
 
-(* ChemicalIndexer.mix_from itself: per chemical, the new row is the sum over the inlets of
-   their totals over phases (inlets: the receiver itself, single-phase or multi-phase
-   indexers, same or other package), and nothing else about the receiver changes package *)
+(* ===== mixing: totality =====
+   Non-negative flows, the receiver's package lists every chemical that flows in an inlet, the
+   temperature solver works: the mix returns (no KeyError / IndexError / UndefinedPhase / ...),
+   for every combination of classes, phases and packages. *)
+Theorem C01_mix_total : forall st r ins eb,
+  wf_store st -> (forall s, In s st -> nonneg_stream s) ->
+  (r < length st)%nat -> (forall i, In i ins -> (i < length st)%nat) -> pkgs_ok st r ins ->
+  exists r', mix st r ins eb 0 = Ok r'.
+Proof. exact mix_total_lemma. Qed.
+Print Assumptions C01_mix_total.
+
+(* ===== the indexer methods themselves ===== *)
+Theorem C01_material_indexer_mix_value : forall self0 others m',
+  mmix_from self0 others = Ok m' -> wf_m self0 ->
+  (forall i, In i others -> inl_ok (mpkg self0) (inl_stream (MS self0) i)) ->
+  mpkg m' = mpkg self0 /\ wf_m m' /\
+  forall c, tot (MS m') c == qsum (map (fun i => tot (inl_stream (MS self0) i) c) others).
+Proof. exact mmix_from_value. Qed.
+Print Assumptions C01_material_indexer_mix_value.
 Theorem C01_chemical_indexer_mix_value : forall self others c',
   cmix_from self others = Ok c' -> wf_stream (SS self) ->
   (forall i, In i others -> inl_ok (cpkg self) (inl_stream (SS self) i)) ->
@@ -33,52 +52,76 @@ Theorem C01_chemical_indexer_mix_value : forall self others c',
   forall c, getc (cpkg self) (crow c') c == qsum (map (fun i => tot (inl_stream (SS self) i) c) others).
 Proof. exact cmix_from_value. Qed.
 Print Assumptions C01_chemical_indexer_mix_value.
-
-(* SparseVector.mix_from: with the receiver's own dictionary 0, 1 or >= 2 times in the list
-   the result is the plain sum (the receiver counted as often as it occurs) *)
+(* SparseVector.mix_from with the receiver's own dictionary 0, 1 or >= 2 times in the list *)
 Theorem C01_sparse_mix_from_value : forall p self others c,
   (forall v, In (Some v) others -> length v = length self) ->
   getc p (sv_mix_from self others) c == qsum (map (scval p self c) others) /\
   length (sv_mix_from self others) = length self.
 Proof. exact sv_mix_from_getc. Qed.
 Print Assumptions C01_sparse_mix_from_value.
-
 (* other-package rows are remapped through the shared CAS numbers, chemical by chemical *)
 Theorem C01_remap_value : forall left right row r, remap left right row = Ok r ->
   wf_pkg left -> wf_pkg right -> length row = psize right ->
   length r = psize left /\ forall c, getc left r c == getc right row c.
 Proof. exact remap_getc. Qed.
 Print Assumptions C01_remap_value.
+(* copy_like (either class from either class, any phases, any package) copies every chemical *)
+Theorem C01_copy_like_value : forall self other s', copy_like self other = Ok s' ->
+  wf_stream self -> wf_stream other -> coherent (spkg self) (spkg other) ->
+  spkg s' = spkg self /\ wf_stream s' /\ forall c, tot s' c == tot other c.
+Proof. exact copy_like_value. Qed.
+Print Assumptions C01_copy_like_value.
 
-(* ===== mixing: totality =====  (not proved in Coq; the direct oracle checks it on every
-   generated case: a raise within these preconditions is reported as a violation) *)
-Definition nonneg_stream (s : stream) : Prop := forall r, In r (srows s) -> forall i, 0 <= nthq r i.
-Definition pkgs_ok (st : store) (r : nat) (ins : list nat) : Prop :=
-  forall rs, nth_error st r = Some rs -> forall i s, In i ins -> nth_error st i = Some s ->
-  forall c, ~ tot s c == 0 -> In c (cas (spkg rs)).
-Definition C01_mix_total_statement : Prop :=
-  forall st r ins eb, wf_store st -> (forall s, In s st -> nonneg_stream s) ->
-  (r < length st)%nat -> (forall i, In i ins -> (i < length st)%nat) -> pkgs_ok st r ins ->
-  exists r', mix st r ins eb 0 = Ok r'.
-
-(* ===== splitting ===== Stream.split_to on a single-phase feed (or one phase of a multi-phase
-   feed): outlets in the same or another package, scalar or per-chemical split *)
-Theorem C01_split_value : forall fpkg fphase frow s1 s2 sp eb a b,
-  split_single fpkg fphase frow s1 s2 sp eb = Ok (a, b) ->
-  wf_pkg fpkg -> length frow = psize fpkg -> length (split_vec (length frow) sp) = length frow ->
-  wf_pkg (spkg s1) -> wf_pkg (spkg s2) -> coherent (spkg s1) fpkg -> coherent (spkg s2) fpkg ->
-  let spv := split_vec (length frow) sp in
-  forall c,
-    tot a c == getc fpkg (vmul frow spv) c /\
-    tot b c == getc fpkg frow c - getc fpkg (vmul frow spv) c /\
-    tot a c + tot b c == getc fpkg frow c.
-Proof. exact split_single_value. Qed.
+(* ===== splitting ===== Stream.split_to and MultiStream.split_to: scalar or per-chemical split,
+   outlets of either class in the same or another package *)
+Theorem C01_split_value : forall f s1 s2 sp eb a b,
+  split_to f s1 s2 sp eb = Ok (a, b) ->
+  wf_stream f -> wf_stream s1 -> wf_stream s2 ->
+  coherent (spkg s1) (spkg f) -> coherent (spkg s2) (spkg f) ->
+  length (split_vec (psize (spkg f)) sp) = psize (spkg f) ->
+  forall c, tot a c == split_part f sp c /\ tot b c == tot f c - split_part f sp c /\
+            tot a c + tot b c == tot f c.
+Proof. exact split_to_value. Qed.
 Print Assumptions C01_split_value.
+(* [split_part] is split * feed, chemical by chemical and phase by phase *)
 Theorem C01_split_is_product : forall fpkg frow spv c i,
   index_of c (cas fpkg) = Some i -> length frow = length spv ->
   getc fpkg (vmul frow spv) c == getc fpkg frow c * getc fpkg spv c.
 Proof. exact split_product. Qed.
 Print Assumptions C01_split_is_product.
+(* with 0 <= split <= 1 and a non-negative feed both outlets are non-negative *)
+Theorem C01_split_nonneg : forall fpkg fphase frow s1 s2 sp eb a b,
+  split_single fpkg fphase frow s1 s2 sp eb = Ok (a, b) ->
+  wf_pkg fpkg -> length frow = psize fpkg -> length (split_vec (length frow) sp) = length frow ->
+  wf_pkg (spkg s1) -> wf_pkg (spkg s2) -> coherent (spkg s1) fpkg -> coherent (spkg s2) fpkg ->
+  (forall i, 0 <= nthq frow i) ->
+  (forall i, 0 <= nthq (split_vec (length frow) sp) i <= 1) ->
+  forall c, 0 <= tot a c /\ 0 <= tot b c.
+Proof. exact split_nonneg_lemma. Qed.
+Print Assumptions C01_split_nonneg.
+
+(* ===== separating ===== *)
+Theorem C01_separate_value : forall st r o st', wf_store st -> r <> o -> step st (OSep r o) = Ok st' ->
+  (forall c, tot_at st' c r == tot_at st c r - tot_at st c o) /\
+  forall k, k <> r -> nth_error st' k = nth_error st k.
+Proof. exact separate_value_thm. Qed.
+Print Assumptions C01_separate_value.
+(* separating a stream back out of a mixture restores the remainder (the receiver may itself be [a]) *)
+Theorem C01_separate_restores : forall st r a b st1 st2,
+  wf_store st -> r <> b ->
+  step st (OMix r [a; b] false 0) = Ok st1 -> step st1 (OSep r b) = Ok st2 ->
+  forall c, tot_at st2 c r == tot_at st c a.
+Proof. exact separate_restores_lemma. Qed.
+Print Assumptions C01_separate_restores.
+
+(* ===== copy with removal ===== the receiver ends with exactly what the source had, the source with
+   nothing, every other stream is untouched *)
+Theorem C01_copy_remove : forall st d s st',
+  wf_store st -> d <> s -> step st (OCopyFlow d s IdAll true false) = Ok st' ->
+  forall c, tot_at st' c d == tot_at st c s /\ tot_at st' c s == 0 /\
+            forall k, k <> d -> k <> s -> tot_at st' c k = tot_at st c k.
+Proof. exact copy_remove_lemma. Qed.
+Print Assumptions C01_copy_remove.
 
 (* ===== scaling ===== *)
 Theorem C01_scale_value : forall k s c, tot (scale k s) c == k * tot s c.
@@ -89,44 +132,70 @@ Theorem C01_scale_rows : forall k s, spkg (scale k s) = spkg s /\ sphases (scale
 Proof. exact scale_rows_lemma. Qed.
 Print Assumptions C01_scale_rows.
 
-(* ===== separate_out, copy_flow(remove=True) =====  full statements; not proved in Coq, checked
-   by the correspondence and the direct oracle *)
-Definition C01_separate_restores_statement : Prop :=
-  forall st r a b st1 st2, wf_store st -> r <> a -> r <> b ->
-  step st (OMix r [a; b] false 0) = Ok st1 -> step st1 (OSep r b) = Ok st2 ->
-  forall c, tot_at st2 c r == tot_at st c a.
-Definition C01_copy_remove_statement : Prop :=
-  forall st d s st', wf_store st -> d <> s ->
-  step st (OCopyFlow d s IdAll true false) = Ok st' ->
-  forall c, tot_at st' c d == tot_at st c s /\ tot_at st' c s == 0.
-
 (* ===== non-vacuity ===== two packages listing shared chemicals in another order, a
-   multi-phase inlet, the receiver among the inlets twice *)
+   multi-phase inlet, the receiver among the inlets twice, single- and multi-phase receivers *)
 Definition exP0 := mkpkg 0 [0; 1; 2; 3]%nat.
 Definition exP1 := mkpkg 1 [2; 0; 1]%nat.
 Definition exStore : store :=
   [ SS (mkc exP0 Pl [1; 2; 0; 0]);
     SS (mkc exP1 Pg [4; 1 # 2; 0]);
     MS (mkm exP1 [Pg; Pl] [[0; 1; 0]; [8; 0; 3]]) ].
-Example C01_nonvacuous_mix :
-  wf_store exStore /\
-  mix exStore 0 [0; 1; 2; 0]%nat false 0 = Ok (SS (mkc exP0 Pl [(7 # 2); 7; 12; 0])) /\
-  mix exStore 2 [0; 1; 2; 2]%nat false 0 = Ok (MS (mkm exP1 [Pg; Pl] [[4; (1 # 2) + 1 + 1; 0]; [16; 1; 8]])).
+Lemma exStore_wf : wf_store exStore.
 Proof.
-  split; [|split; vm_compute; reflexivity].
   split.
   - intros s [H|[H|[H|[]]]]; subst; unfold wf_stream, wf_pkg; simpl;
       (split; [repeat constructor; simpl; intuition lia|]);
       (split; [intros r0 R; repeat (destruct R as [R|R]; [subst; reflexivity|]); destruct R|]);
-      (split; [reflexivity | repeat constructor; simpl; intuition lia]).
+      (split; [reflexivity | repeat split; repeat constructor; simpl; lia]).
   - intros a b [A|[A|[A|[]]]] [B|[B|[B|[]]]]; subst; unfold coherent; simpl; intros E;
       try reflexivity; try discriminate.
 Qed.
-Example C01_nonvacuous_split :
-  match split_single exP1 Pg [4; 1 # 2; 0] (SS (mkc exP0 Pl [1; 2; 0; 0])) (SS (mkc exP1 Ps [0; 0; 0]))
-          (SpV [1 # 2; 1 # 4; 1]) true with
-  | Ok (a, b) => stream_eqb a (SS (mkc exP0 Pg [1 # 8; 0; 2; 0])) &&
-                 stream_eqb b (SS (mkc exP1 Pg [2; 3 # 8; 0]))
-  | Err _ => false
+Example C01_nonvacuous_mix :
+  wf_store exStore /\
+  mix exStore 0 [0; 1; 2; 0]%nat false 0 = Ok (SS (mkc exP0 Pl [(7 # 2); 7; 12; 0])) /\
+  mix exStore 2 [0; 1; 2; 2]%nat false 0 = Ok (MS (mkm exP1 [Pg; Pl] [[4; (1 # 2) + 1 + 1; 0]; [16; 1; 8]])).
+Proof. split; [exact exStore_wf | split; vm_compute; reflexivity]. Qed.
+(* energy balance, the solver failing twice: the fallback turns the receiver multi-phase *)
+Example C01_nonvacuous_mix_fallback :
+  match mix exStore 0 [0; 1; 2]%nat true 2 with
+  | Ok (MS m) => qeqb (tot (MS m) 0%nat) ((1 + (1 # 2) + 1)) && qeqb (tot (MS m) 2%nat) 12
+  | _ => false
   end = true.
 Proof. vm_compute. reflexivity. Qed.
+(* one non-empty inlet with energy balance: copy_like from a multi-phase stream of another package *)
+Example C01_nonvacuous_copy_like :
+  match mix exStore 0 [2]%nat true 0 with
+  | Ok (MS m) => qeqb (tot (MS m) 0%nat) 1 && qeqb (tot (MS m) 2%nat) 8 && qeqb (tot (MS m) 1%nat) 3
+  | _ => false
+  end = true.
+Proof. vm_compute. reflexivity. Qed.
+Example C01_nonvacuous_total :
+  (forall s, In s exStore -> nonneg_stream s) /\ pkgs_ok exStore 0 [0; 1; 2; 0]%nat.
+Proof.
+  split.
+  - intros s [H|[H|[H|[]]]]; subst; intros r R; simpl in R;
+      repeat (destruct R as [R|R]; [subst; intros i; unfold nthq;
+        repeat (destruct i as [|i]; simpl; try lra) |]); destruct R.
+  - intros rs H i s I N c NZ. simpl in H. inversion H; subst rs. simpl.
+    destruct c as [|[|[|[|c]]]]; auto 10.
+    exfalso. apply NZ.
+    destruct I as [I|[I|[I|[I|[]]]]]; subst i; simpl in N; inversion N; subst s;
+      unfold tot, rows_tot, getc; simpl; lra.
+Qed.
+Example C01_nonvacuous_separate : exists st1 st2,
+  step exStore (OMix 0 [1; 2]%nat false 0) = Ok st1 /\ step st1 (OSep 0 2) = Ok st2.
+Proof. eexists; eexists. split; vm_compute; reflexivity. Qed.
+Example C01_nonvacuous_copy_remove : exists st',
+  step exStore (OCopyFlow 0 2 IdAll true false) = Ok st'.
+Proof. eexists. vm_compute. reflexivity. Qed.
+Example C01_nonvacuous_split :
+  match split_to (MS (mkm exP1 [Pg; Pl] [[0; 1; 0]; [8; 0; 3]])) (SS (mkc exP0 Pl [1; 2; 0; 0]))
+          (SS (mkc exP1 Ps [0; 0; 0])) (SpV [1 # 2; 1 # 4; 1]) true with
+  | Ok (MS a, MS b) => qeqb (tot (MS a) 2%nat) 4 && qeqb (tot (MS b) 2%nat) 4 && qeqb (tot (MS a) 0%nat) (1 # 4)
+  | _ => false
+  end = true /\
+  (forall i, 0 <= nthq [4; 1 # 2; 0] i) /\ (forall i, 0 <= nthq (split_vec 3 (SpS (1 # 4))) i <= 1).
+Proof.
+  split; [vm_compute; reflexivity|].
+  split; intros i; unfold nthq; repeat (destruct i as [|i]; simpl; try lra).
+Qed.
